@@ -30,7 +30,9 @@ _covered = []
 _PER = {'quick': 3, 'thorough': 6}
 # in addition: every algorithm selection of the explicit inclusion checker (hand-managed antichains, caches with invalidation
 # callbacks, emulated call stack) on a universe with two leaf symbols
-_MORE = {'C01:incl': [AB(1, 2, [0, 0, 1], SEL=s) for s in range(8)]}
+_MORE = {'C01:incl': [AB(1, 2, [0, 0, 1], SEL=s) for s in range(8)],
+         # the simulation engine with more than 64 blocks (word boundary of its per-block bit masks)
+         'C16:lts': [{'NQ': 2, 'NL': 1, 'MODE': 0, 'FILL': 67, 'FILLCHAIN': None}]}
 for _f in sorted(glob.glob(os.path.join(_here, '*.py'))):
     _n = os.path.basename(_f)[:-3]
     if _n in ('C20', 'C13'): continue
